@@ -206,6 +206,10 @@ def shard(ctx):
                         p_unary=rng.choice([0, 0.1, 0.25]),
                         moves=rng.choice([0, 0, 1, 2, 4]),
                         root_pieces=rng.choice([1, 1, 2, 3, 5, 8]))
+        gen.spice(rng, spec, ['cat-keyword', 'cat-apostrophe', 'cat-punct-char',
+                              'pos-punct-char', 'word-keyword',
+                              'word-typographic-punct'],
+                  root_labels=['TOP', 'ROOT', 'S'])
         gen.uproot(rng, spec, p=rng.choice([0.1, 0.25, 0.5]),
                    only_tokens=rng.random() < 0.5)
         run_tree(ctx, spec, rng)
